@@ -180,6 +180,11 @@ def r2_engine_reads(cx):
             elif isinstance(p, ast.Compare) and p.comparators and p.comparators[0] is n:
                 l = p.left
                 it = _loop_iter_of(l, fn)
+                if it is not None and it.isidentifier():
+                    # member of a group that is itself an element of a declared list: for group in self.at_least_one ... d in group
+                    outer_it = _loop_iter_of(ast.Name(id=it, ctx=ast.Load()), fn, at=l)
+                    if outer_it == "self.at_least_one":
+                        it = "self.deps"
                 if it in ("self.requires", "self.deps"):
                     ok, why = True, "membership test of a declared dependency"
                 elif it is not None and "IGNORE" in it:
@@ -190,10 +195,10 @@ def r2_engine_reads(cx):
                        construct=short(stmt_of(n) if not isinstance(p, ast.Compare) else p))
 
 
-def _loop_iter_of(e, fn):
-    """Text of the iterable whose loop/comprehension variable ``e`` is (searching enclosing loops)."""
+def _loop_iter_of(e, fn, at=None):
+    """Text of the iterable whose loop/comprehension variable ``e`` is (searching the loops enclosing ``e``, or ``at`` for a synthetic name)."""
     names = [x.id for x in ast.walk(e) if isinstance(x, ast.Name)]
-    for a in ancestors(e):
+    for a in ancestors(at if at is not None else e):
         gens = []
         if isinstance(a, (ast.ListComp, ast.GeneratorExp, ast.SetComp, ast.DictComp)):
             gens = [(g.target, g.iter) for g in a.generators]
